@@ -1,11 +1,14 @@
 -- Root of the `PwVerif` library: every property file (and through them the models and lemmas).
 import PwVerif.Props.C01
 import PwVerif.Props.C03
+import PwVerif.Props.C05
+import PwVerif.Props.C06
 import PwVerif.Props.C07
 import PwVerif.Props.C08
 import PwVerif.Props.C10
 import PwVerif.Props.C13
 import PwVerif.Props.C14
 import PwVerif.Props.C15
+import PwVerif.Props.C16
 import PwVerif.Props.C19
 import PwVerif.Driver
